@@ -19,15 +19,17 @@ import (
 // effect in the order read, one scheduler event each, and each connection has
 // one outbound FIFO.
 type SimStomp struct {
-	rc        *RunCtx
-	s         *simrt.Sim
-	mu        sync.Mutex
-	conns     []*stompConn
-	subs      []*stompSub
-	msgN      int
-	Acks      []string
-	OnSend    func(destination string, body []byte) bool
-	OnDeliver func(destination string, body []byte)
+	rc    *RunCtx
+	s     *simrt.Sim
+	mu    sync.Mutex
+	conns []*stompConn
+	subs  []*stompSub
+	msgN  int
+	// OmitAckNext: that many of the next MESSAGE frames go out without their `ack` header
+	OmitAckNext int
+	Acks        []string
+	OnSend      func(destination string, body []byte) bool
+	OnDeliver   func(destination string, body []byte)
 	// Prefetch > 0: at most that many unacknowledged MESSAGEs per connection (what real brokers call the
 	// prefetch limit); the rest waits at the broker. Keeps a backlog out of go-stomp's own goroutines, whose
 	// native select between inbound frames and outbound requests would otherwise decide by runtime random.
@@ -275,6 +277,11 @@ func (b *SimStomp) Route(dest string, body []byte) int {
 		id := strconv.Itoa(b.msgN)
 		f := frame.New(frame.MESSAGE, frame.Subscription, s.id, frame.MessageId, id, frame.Destination, dest, frame.Ack, "ack-"+id,
 			frame.ContentType, "application/octet-stream", frame.ContentLength, strconv.Itoa(len(body)))
+		if b.OmitAckNext > 0 {
+			// a MESSAGE frame without the header an acknowledgement needs (a broker that delivers in auto mode)
+			b.OmitAckNext--
+			f.Header.Del(frame.Ack)
+		}
 		f.Body = append([]byte(nil), body...)
 		frames = append(frames, f)
 	}
